@@ -170,6 +170,25 @@ def run_true_cli(spec, hashseed='0', timeout=120):
                 env.pop(k, None)
             else:
                 env[k] = v.replace('{SCRATCH}', d)
+        for step in spec.get('before') or []:
+            for rel, text in (step.get('files') or {}).items():
+                with open(os.path.join(d, rel), 'w') as f_:
+                    f_.write(text)
+            try:
+                subprocess.run([PY, '-m', 'bespokeasm'] + [a.replace('{SCRATCH}', d) for a in step['argv']], cwd=os.path.join(d, spec.get('cwd', '.')),
+                               env=env, stdin=subprocess.DEVNULL, stdout=subprocess.DEVNULL, stderr=subprocess.DEVNULL, timeout=120)
+            except subprocess.TimeoutExpired:
+                pass
+            for rel in step.get('remove_after') or []:
+                try:
+                    os.remove(os.path.join(d, rel))
+                except OSError:
+                    pass
+            for rel in (step.get('files') or {}):
+                st_ = os.stat(os.path.join(d, rel))
+                with open(os.path.join(d, rel), 'w') as f_:
+                    f_.write(spec['files'][rel])
+                os.utime(os.path.join(d, rel), ns=(st_.st_atime_ns, st_.st_mtime_ns))
         t0 = time.monotonic()
         # the same CPU-time bound as the forked run (CPU time, not wall time: it does not depend on machine load);
         # interpreter start-up and imports cost the fresh process about half a second more, hence the allowance
@@ -218,6 +237,7 @@ def run_true_cli(spec, hashseed='0', timeout=120):
         out['files'] = files
         out['scratch'] = os.path.realpath(d)
         out['unchanged'] = unchanged
+        out['missing_inputs'] = [r for r in inputs if not os.path.exists(os.path.join(d, r))]
         out['probes'] = {}
     finally:
         shutil.rmtree(d, ignore_errors=True)
